@@ -507,6 +507,221 @@ Section Proofs.
     rewrite zip_phase_I_r, zip_xor_I_r, dense_matrix_scale by apply letters_length.
     apply dense_matrix_coef_ext. rewrite ipow_0. ring.
   Qed.
+
+  (* ----- PAULI_STRING_LIKE contents: every atom multiplies on the stated side, sequences in order ----- *)
+  Definition plike_matrix (qs : list qid) (x : plike (K:=K)) : Kmat :=
+    match x with
+    | LPS p => ps_matrix O qs p
+    | LNum c => dense_matrix O c (map (fun _ => pI) qs)
+    | LMap m => dense_matrix O z1 (letters qs m)
+    | LId => id_matrix qs
+    end.
+  Definition plike_ok (qs : list qid) (x : plike (K:=K)) : Prop :=
+    match x with LPS p => keys_ok qs (pm p) | LMap m => keys_ok qs m | _ => True end.
+  Lemma imul_like_sound_right qs (P : pstr) x : NoDup qs -> plike_ok qs x ->
+    ps_matrix O qs (imul_like O (-1) P x) = mmul O (ps_matrix O qs P) (plike_matrix qs x).
+  Proof.
+    intros Hqs Hx. destruct x as [p|c|m|]; simpl.
+    - apply imul_sound_right; assumption.
+    - unfold ps_matrix. simpl. rewrite dense_mul_matrix by (rewrite letters_length, map_length; reflexivity).
+      rewrite zip_phase_I_r, zip_xor_I_r by apply letters_length. apply dense_matrix_coef_ext. rewrite ipow_0. ring.
+    - destruct Hx as [H1 H2]. apply imul_items_sound_right; assumption.
+    - unfold ps_matrix. rewrite id_matrix_r by apply letters_length. reflexivity.
+  Qed.
+  Lemma imul_like_sound_left qs (P : pstr) x : NoDup qs -> plike_ok qs x ->
+    ps_matrix O qs (imul_like O 1 P x) = mmul O (plike_matrix qs x) (ps_matrix O qs P).
+  Proof.
+    intros Hqs Hx. destruct x as [p|c|m|]; simpl.
+    - apply imul_sound_left; assumption.
+    - unfold ps_matrix. simpl. rewrite dense_mul_matrix by (rewrite letters_length, map_length; reflexivity).
+      rewrite zip_phase_I_l, zip_xor_I_l by apply letters_length. apply dense_matrix_coef_ext. rewrite ipow_0. ring.
+    - destruct Hx as [H1 H2]. apply imul_items_sound_left; assumption.
+    - unfold ps_matrix. rewrite id_matrix_l by apply letters_length. reflexivity.
+  Qed.
+  Lemma imul_like_keys_ok sign qs (P : pstr) x : keys_ok qs (pm P) -> plike_ok qs x -> keys_ok qs (pm (imul_like O sign P x)).
+  Proof.
+    intros HP Hx. destruct x as [p|c|m|]; simpl; try exact HP.
+    - apply imul_keys_ok; [exact HP|apply Hx].
+    - apply imul_items_keys_ok; [exact HP|apply Hx].
+  Qed.
+  (* sign = -1: ((P . x1) . x2) ... ; sign = +1 processes the reversed list, every item on the left: x1 . (x2 . (... . P)) *)
+  Lemma imul_fold_right qs : NoDup qs -> forall l (P : pstr), keys_ok qs (pm P) -> Forall (plike_ok qs) l ->
+    ps_matrix O qs (fold_left (imul_like O (-1)) l P) = fold_left (fun M x => mmul O M (plike_matrix qs x)) l (ps_matrix O qs P)
+    /\ keys_ok qs (pm (fold_left (imul_like O (-1)) l P)).
+  Proof.
+    intros Hqs. induction l as [|x l IH]; intros P HP Hl; simpl; [split; [reflexivity|exact HP]|].
+    inversion Hl as [|? ? Hx Hl']. subst.
+    destruct (IH (imul_like O (-1) P x) (imul_like_keys_ok _ qs P x HP Hx) Hl') as [H1 H2].
+    split; [|exact H2]. rewrite H1, imul_like_sound_right by assumption. reflexivity.
+  Qed.
+  Lemma imul_fold_left qs : NoDup qs -> forall l (P : pstr), keys_ok qs (pm P) -> Forall (plike_ok qs) l ->
+    ps_matrix O qs (fold_left (imul_like O 1) l P) = fold_left (fun M x => mmul O (plike_matrix qs x) M) l (ps_matrix O qs P)
+    /\ keys_ok qs (pm (fold_left (imul_like O 1) l P)).
+  Proof.
+    intros Hqs. induction l as [|x l IH]; intros P HP Hl; simpl; [split; [reflexivity|exact HP]|].
+    inversion Hl as [|? ? Hx Hl']. subst.
+    destruct (IH (imul_like O 1 P x) (imul_like_keys_ok _ qs P x HP Hx) Hl') as [H1 H2].
+    split; [|exact H2]. rewrite H1, imul_like_sound_left by assumption. reflexivity.
+  Qed.
+  (* PauliString(contents..., qubit_pauli_map=m, coefficient=c), inplace_left_multiply_by(iterable): P . (((I . x1) . x2) ...) *)
+  Theorem imul_contents_sound_right qs (P : pstr) l : NoDup qs -> Forall (plike_ok qs) l ->
+    ps_matrix O qs (imul_contents O (-1) P l)
+    = mmul O (ps_matrix O qs P) (fold_left (fun M x => mmul O M (plike_matrix qs x)) l (id_matrix qs)).
+  Proof.
+    intros Hqs Hl. unfold imul_contents, imul_seq. change ((-1 =? 1)%Z) with false. cbv iota.
+    destruct (imul_fold_right qs Hqs l (ps_empty O) (keys_ok_nil qs) Hl) as [H1 H2].
+    rewrite imul_sound_right, H1 by assumption. reflexivity.
+  Qed.
+  (* inplace_right_multiply_by(iterable), __imul__: (x1 . (x2 . (... . I))) . P *)
+  Theorem imul_contents_sound_left qs (P : pstr) l : NoDup qs -> Forall (plike_ok qs) l ->
+    ps_matrix O qs (imul_contents O 1 P l)
+    = mmul O (fold_left (fun M x => mmul O (plike_matrix qs x) M) (rev l) (id_matrix qs)) (ps_matrix O qs P).
+  Proof.
+    intros Hqs Hl. unfold imul_contents, imul_seq. change ((1 =? 1)%Z) with true. cbv iota.
+    assert (Hl' : Forall (plike_ok qs) (rev l)) by (apply Forall_rev; exact Hl).
+    destruct (imul_fold_left qs Hqs (rev l) (ps_empty O) (keys_ok_nil qs) Hl') as [H1 H2].
+    rewrite imul_sound_left, H1 by assumption. reflexivity.
+  Qed.
+  Lemma plike_matrix_dense qs x : exists c l, plike_matrix qs x = dense_matrix O c l /\ length l = length qs.
+  Proof.
+    destruct x as [p|c|m|]; simpl.
+    - exists (coef p), (letters qs (pm p)). split; [reflexivity|apply letters_length].
+    - exists c, (map (fun _ => pI) qs). split; [reflexivity|apply map_length].
+    - exists z1, (letters qs m). split; [reflexivity|apply letters_length].
+    - exists z1, (map (fun _ => pI) qs). split; [reflexivity|apply map_length].
+  Qed.
+  Lemma id_plike_l qs x : mmul O (id_matrix qs) (plike_matrix qs x) = plike_matrix qs x.
+  Proof. destruct (plike_matrix_dense qs x) as [c [l [-> Hl]]]. apply id_matrix_l. exact Hl. Qed.
+  Lemma id_plike_r qs x : mmul O (plike_matrix qs x) (id_matrix qs) = plike_matrix qs x.
+  Proof. destruct (plike_matrix_dense qs x) as [c [l [-> Hl]]]. apply id_matrix_r. exact Hl. Qed.
+  Theorem mps_inplace_left_sound qs (P : pstr) x : NoDup qs -> plike_ok qs x ->
+    ps_matrix O qs (mps_inplace_left O P x) = mmul O (ps_matrix O qs P) (plike_matrix qs x).
+  Proof.
+    intros Hqs Hx. assert (Hc : ps_matrix O qs (imul_contents O (-1) P [x]) = mmul O (ps_matrix O qs P) (plike_matrix qs x)).
+    { rewrite imul_contents_sound_right by (first [assumption | constructor; [assumption|constructor]]). simpl.
+      rewrite id_plike_l. reflexivity. }
+    destruct x as [p|c|m|]; [apply (imul_like_sound_right qs P (LPS p))|apply (imul_like_sound_right qs P (LNum c))|exact Hc|exact Hc]; assumption.
+  Qed.
+  Theorem mps_inplace_right_sound qs (P : pstr) x : NoDup qs -> plike_ok qs x ->
+    ps_matrix O qs (mps_inplace_right O P x) = mmul O (plike_matrix qs x) (ps_matrix O qs P).
+  Proof.
+    intros Hqs Hx. assert (Hc : ps_matrix O qs (imul_contents O 1 P [x]) = mmul O (plike_matrix qs x) (ps_matrix O qs P)).
+    { rewrite imul_contents_sound_left by (first [assumption | constructor; [assumption|constructor]]). simpl.
+      rewrite id_plike_r. reflexivity. }
+    destruct x as [p|c|m|]; [apply (imul_like_sound_left qs P (LPS p))|apply (imul_like_sound_left qs P (LNum c))|exact Hc|exact Hc]; assumption.
+  Qed.
+
+  (* ----- D2: commutation ----- *)
+  Fixpoint count_anti (a b : list pauli) : nat :=
+    match a, b with x :: a', y :: b' => (if anticommute x y then 1 else 0) + count_anti a' b' | _, _ => 0 end.
+  Lemma zip_phase_swap la lb : zip_phase la lb = (- zip_phase lb la)%Z.
+  Proof. revert lb. induction la as [|x la IH]; intros [|y lb]; simpl; try reflexivity. rewrite (mul_phase_swap x y), (IH lb). lia. Qed.
+  Lemma zip_xor_comm la lb : zip_xor la lb = zip_xor lb la.
+  Proof. revert lb. induction la as [|x la IH]; intros [|y lb]; simpl; try reflexivity. rewrite pxor_comm, IH. reflexivity. Qed.
+  Lemma zip_phase_parity la lb : ((2 * zip_phase la lb) mod 4 = (2 * Z.of_nat (count_anti la lb)) mod 4)%Z.
+  Proof.
+    revert lb. induction la as [|x la IH]; intros [|y lb]; simpl count_anti; simpl zip_phase; try reflexivity.
+    specialize (IH lb). rewrite Nat2Z.inj_add.
+    assert (Hm : ((mul_phase x y = 0 /\ anticommute x y = false)
+                  \/ ((mul_phase x y = 1 \/ mul_phase x y = -1) /\ anticommute x y = true))%Z)
+      by (destruct x, y; simpl; tauto).
+    revert IH. generalize (zip_phase la lb) (count_anti la lb). intros z c IH.
+    destruct Hm as [[-> ->]|[[-> | ->] ->]]; change (Z.of_nat 0) with 0%Z; change (Z.of_nat 1) with 1%Z;
+      revert IH; generalize (Z.of_nat c); intros c' IH; Z.div_mod_to_equations; lia.
+  Qed.
+  Lemma ipow_2nat c : ipow O (2 * Z.of_nat c) = if Nat.even c then z1 else - z1.
+  Proof.
+    destruct (Nat.even c) eqn:He.
+    - apply Nat.even_spec in He. destruct He as [k ->]. unfold ipow.
+      replace ((2 * Z.of_nat (2 * k)) mod 4)%Z with 0%Z; [reflexivity|]. rewrite Nat2Z.inj_mul. simpl Z.of_nat.
+      Z.div_mod_to_equations; lia.
+    - assert (Ho : Nat.odd c = true) by (unfold Nat.odd; rewrite He; reflexivity).
+      apply Nat.odd_spec in Ho. destruct Ho as [k ->]. unfold ipow.
+      replace ((2 * Z.of_nat (2 * k + 1)) mod 4)%Z with 2%Z; [reflexivity|]. rewrite Nat2Z.inj_add, Nat2Z.inj_mul. simpl Z.of_nat.
+      Z.div_mod_to_equations; lia.
+  Qed.
+  (* the sign law: P Q = (-1)^(number of anticommuting positions) Q P, coefficients included *)
+  Theorem dense_commute_sign ca cb la lb : length la = length lb ->
+    mmul O (dense_matrix O ca la) (dense_matrix O cb lb)
+    = mscale O (if Nat.even (count_anti la lb) then z1 else - z1) (mmul O (dense_matrix O cb lb) (dense_matrix O ca la)).
+  Proof.
+    intros Hlen. rewrite !dense_mul_matrix, dense_matrix_scale by congruence. rewrite (zip_xor_comm lb la).
+    apply dense_matrix_coef_ext.
+    assert (He : ipow O (2 * Z.of_nat (count_anti la lb)) = ipow O (2 * zip_phase la lb))
+      by (rewrite <- (ipow_mod (2 * Z.of_nat (count_anti la lb))), <- zip_phase_parity, ipow_mod; reflexivity).
+    rewrite <- ipow_2nat, He.
+    replace (zip_phase la lb) with (2 * zip_phase la lb + zip_phase lb la)%Z at 1 by (rewrite (zip_phase_swap lb la); lia).
+    rewrite ipow_add. ring.
+  Qed.
+  Lemma mscale_one_dense c l : mscale O z1 (dense_matrix O c l) = dense_matrix O c l.
+  Proof. rewrite dense_matrix_scale. apply dense_matrix_coef_ext. ring. Qed.
+  Theorem dense_commute_iff ca cb la lb : length la = length lb ->
+    (Nat.even (count_anti la lb) = true ->
+       mmul O (dense_matrix O ca la) (dense_matrix O cb lb) = mmul O (dense_matrix O cb lb) (dense_matrix O ca la))
+    /\ (Nat.even (count_anti la lb) = false ->
+       mmul O (dense_matrix O ca la) (dense_matrix O cb lb)
+       = mscale O (- z1) (mmul O (dense_matrix O cb lb) (dense_matrix O ca la))).
+  Proof.
+    intros Hlen. split; intros He; rewrite (dense_commute_sign ca cb la lb Hlen), He; [|reflexivity].
+    rewrite dense_mul_matrix by congruence. apply mscale_one_dense.
+  Qed.
+  (* the dense test (phase of the product is real) and the sparse test (parity of differing shared positions) compute that parity *)
+  Lemma zip_phase_even la lb : Z.even (zip_phase la lb) = Nat.even (count_anti la lb).
+  Proof.
+    revert lb. induction la as [|x la IH]; intros [|y lb]; simpl count_anti; simpl zip_phase; try reflexivity.
+    specialize (IH lb). rewrite Z.even_add, IH.
+    assert (Hm : ((mul_phase x y = 0 /\ anticommute x y = false)
+                  \/ ((mul_phase x y = 1 \/ mul_phase x y = -1) /\ anticommute x y = true))%Z)
+      by (destruct x, y; simpl; tauto).
+    generalize (count_anti la lb). intros c.
+    destruct Hm as [[-> ->]|[[-> | ->] ->]]; change (Z.even 0) with true; change (Z.even 1) with false;
+      change (Z.even (-1)) with false; change (0 + c)%nat with c; change (1 + c)%nat with (S c);
+      rewrite ?Nat.even_succ, <- ?Nat.negb_even; destruct (Nat.even c); reflexivity.
+  Qed.
+  Lemma vphase_zip la lb : length la = length lb -> vphase la lb = zip_phase la lb.
+  Proof. revert lb. induction la as [|x la IH]; intros [|y lb] H; try discriminate; simpl; [reflexivity|]. rewrite vphase1_mul, IH by (simpl in H; lia). reflexivity. Qed.
+  Theorem ds_commutes_spec la lb : length la = length lb -> ds_commutes la lb = Nat.even (count_anti la lb).
+  Proof. intros H. unfold ds_commutes. rewrite vphase_zip by exact H. apply zip_phase_even. Qed.
+
+  Definition no_I (m : pmap) : Prop := forall e, In e m -> snd e <> pI.
+  Lemma pm_mem_get m q : no_I m -> pm_mem m q = negb (is_pI (pm_get m q)).
+  Proof.
+    intros Hn. induction m as [|[k v] m IH]; simpl; [reflexivity|].
+    destruct (Z.eqb_spec k q) as [->|Hne]; simpl.
+    - assert (Hv := Hn (q, v) (or_introl eq_refl)). simpl in Hv. destruct v; try reflexivity. contradiction.
+    - apply IH. intros e He. apply Hn. right. exact He.
+  Qed.
+  Lemma count_anti_letters qs A B :
+    Z.of_nat (count_anti (letters qs A) (letters qs B))
+    = sumZ (map (fun q : qid => if anticommute (pm_get A q) (pm_get B q) then 1%Z else 0%Z) qs).
+  Proof.
+    unfold letters. induction qs as [|q qs IH]; simpl; [reflexivity|].
+    rewrite Nat2Z.inj_add, IH. destruct (anticommute (pm_get A q) (pm_get B q)); reflexivity.
+  Qed.
+  Theorem ps_commutes_spec qs a b : NoDup qs -> keys_ok qs a -> no_I a -> no_I b ->
+    ps_commutes a b = Nat.even (count_anti (letters qs a) (letters qs b)).
+  Proof.
+    intros Hqs [Hnd Hin] Ha Hb. unfold ps_commutes. f_equal. apply Nat2Z.inj. rewrite count_anti_letters.
+    pose proof (items_sum_reindex (fun q l => if anticommute l (pm_get b q) then 1%Z else 0%Z) qs
+                  (fun q => eq_refl) Hqs a Hnd Hin) as Hre. cbv beta in Hre. rewrite <- Hre. clear Hre.
+    clear Hnd Hin. induction a as [|[k v] a IH]; simpl; [reflexivity|].
+    assert (Hv := Ha (k, v) (or_introl eq_refl)). simpl in Hv.
+    assert (Ha' : no_I a) by (intros e He; apply Ha; right; exact He).
+    rewrite (pm_mem_get b k Hb).
+    assert (Hc : (negb (is_pI (pm_get b k)) && negb (pauli_eqb v (pm_get b k))) = anticommute v (pm_get b k)).
+    { destruct v; [contradiction| | |]; destruct (pm_get b k); reflexivity. }
+    rewrite Hc. destruct (anticommute v (pm_get b k)); simpl length; rewrite ?Nat2Z.inj_succ, (IH Ha'); lia.
+  Qed.
+  (* D2 at the level of PauliString._commutes_ *)
+  Theorem pauli_commute_iff qs (a b : pstr) : NoDup qs -> keys_ok qs (pm a) -> no_I (pm a) -> no_I (pm b) ->
+    (ps_commutes (pm a) (pm b) = true ->
+       mmul O (ps_matrix O qs a) (ps_matrix O qs b) = mmul O (ps_matrix O qs b) (ps_matrix O qs a))
+    /\ (ps_commutes (pm a) (pm b) = false ->
+       mmul O (ps_matrix O qs a) (ps_matrix O qs b) = mscale O (- z1) (mmul O (ps_matrix O qs b) (ps_matrix O qs a))).
+  Proof.
+    intros Hqs Ha HIa HIb. rewrite (ps_commutes_spec qs (pm a) (pm b) Hqs Ha HIa HIb).
+    apply dense_commute_iff. rewrite !letters_length. reflexivity.
+  Qed.
 End Proofs.
 
 (* ---------- the executable comparison instance Q(i) satisfies the laws the theorems assume ---------- *)
